@@ -768,8 +768,8 @@ fn c04(r: &mut Rep) {
     let names = ["owned_into", "ref_into", "into", "from_owned", "from_ref", "from", "map_owned", "map_ref", "map", "owned_into_existing", "ref_into_existing", "into_existing",
         "owned_try_into", "ref_try_into", "try_into", "try_from_owned", "try_from_ref", "try_from", "try_map_owned", "try_map_ref", "try_map", "owned_try_into_existing", "ref_try_into_existing", "try_into_existing"];
     let bodies = [("struct A { x: i32 }", false), ("enum A { V, W(i32) }", true), ("struct A(i32, i32);", false)];
-    let types = ["B", "crate::m::B", "B<i32>", "(i32, i32)"];
-    let errs = ["E", "E<i32>"];
+    let types = ["B", "crate::m::B", "B<i32>", "crate::m::B<i32>", "::m::n::B<i32, u8>", "(i32, i32)"];
+    let errs = ["E", "E<i32>", "crate::e::E<i32>"];
     let args = |n: &str, t: &str, e: &str| if n.contains("try_") { format!("{}, {}", t, e) } else { t.to_string() };
     let check = |r: &mut Rep, src: &str, instrs: &[(&str, &str)], e: &str| -> Option<Vec<String>> {
         // into_existing on an enum: recorded open defect (body is not Rust, DESIGN section 6) - the header check needs a parsable item
@@ -810,7 +810,7 @@ fn c04(r: &mut Rep) {
             }
             // pairs: same counterpart (overlaps must be rejected), different counterparts, both orders
             for n1 in names { for n2 in names {
-                for (t1, t2) in [("B", "B"), ("B", "C"), ("B<i32>", "B<u8>")] {
+                for (t1, t2) in [("B", "B"), ("B", "C"), ("B<i32>", "B<u8>"), ("v1::M<i32>", "v2::M<i32>")] {
                     let s12 = format!("#[{}({})]\n#[{}({})]\n{}", n1, args(n1, t1, e), n2, args(n2, t2, e), body);
                     let s21 = format!("#[{}({})]\n#[{}({})]\n{}", n2, args(n2, t2, e), n1, args(n1, t1, e), body);
                     let a = check(r, &s12, &[(n1, t1), (n2, t2)], e);
